@@ -338,6 +338,45 @@ def stereo_fragment(rng):
     return ast
 
 
+RINGRICH = ['C1CC1C1CC1', 'c1ccc(cc1)-c1ccccc1', 'C1CC2CC12',
+            'C1CCC2(C1)CCCC2', 'C1CC2CCC1C2', 'C1CC1CC1CC1', 'C1CC1=C1CC1',
+            'c1ccccc1C1CC1', 'C1CC1OC1CC1', 'C1CCC(CC1)C1CCCC1', 'C1CC1C=C',
+            'C1=CC1C1CC1', 'c1ccc2ccccc2c1', 'C1CC2(C1)CC2', 'O1CC1C1CO1',
+            'C1CC1[CH]C1CC1', 'C1CC1C(=O)C1CC1', 'c1ccoc1-c1ccco1']
+_RR = {}
+
+
+def ringrich_pool():
+    if not _RR:
+        out = []
+        for s_ in RINGRICH:
+            m = Chem.MolFromSmiles(s_)
+            if m is not None:
+                out.append((s_, 'as parsed', m))
+        _RR['p'] = out
+    return _RR['p']
+
+
+def ring_sensitive(ast):
+    """Does the fragment say anything about rings (bond kinds ring/nonring,
+    ring-size / ring-count constraints, ringatom prefixes, cyclic prefix)?"""
+    if any(k in ('ring', 'nonring') for _, _, k in ast['bonds']):
+        return True
+    if ast['prefix'].get('cyc'):
+        return True
+    for a in ast['atoms']:
+        if a['type']['prefix'] in ('ringatom', 'nonringatom'):
+            return True
+        for c in a['constraints']:
+            if c['kind'] in ('ringsize', 'nring'):
+                return True
+            if c['kind'] == 'conn' and (c.get('bond') in ('ring', 'nonring')
+                                        or c['type']['prefix'] in (
+                                            'ringatom', 'nonringatom')):
+                return True
+    return False
+
+
 def run_shard(ctx):
     pool = mol_pool(ctx.tier)
     ctx.notes['molecule_pool'] = len(pool)
@@ -356,6 +395,12 @@ def run_shard(ctx):
         alts = [R.render(ast, r)] if k % 4 == 0 else []
         mols = r.sample(pool, 6) + r.sample(
             [x for x in pool if x[2].GetNumHeavyAtoms() > 3], 4)
+        if ring_sensitive(ast):
+            # whatever the fragment says about rings is put to molecules in
+            # which ring atoms, ring bonds and ring counts come apart (chain
+            # bonds between rings, spiro, bridged, fused)
+            mols += r.sample(ringrich_pool(), 6)
+            ctx.count('ring_sensitive_fragments_on_ring_rich_molecules')
         for smi, how, mol in mols:
             res = check_pair(ctx, ast, text, smi, how, mol, alts)
             if res in ('unreadable',):
@@ -384,6 +429,8 @@ def run_shard(ctx):
             continue
         text = R.render(ast)
         mols = r.sample(small, 3) + r.sample(pool, 2)
+        if ring_sensitive(ast):
+            mols += r.sample(ringrich_pool(), 4)
         for smi, how, mol in mols:
             if check_pair(ctx, ast, text, smi, how, mol) == 'unreadable':
                 break
